@@ -83,7 +83,7 @@ def draw_case(rng: numpy.random.Generator, small: bool = True, force: Optional[d
     _lattice_for_system(ds, system)
     n_extra = 0
     noisy = False
-    if system not in (None, "triclinic") and rng.random() < 0.35:
+    if system not in (None, "triclinic") and (rng.random() < 0.35 or force.get("redundant")):
         # "any subset of components that includes what the requested system needs": add one or two components that
         # the symmetry determines (values from the harness' own completion, so the table stays consistent)
         tab = {tuple(sorted((int(k[0]), int(k[1])))): ds.static_table[:, c] for c, k in enumerate(ds.static_keys)}
@@ -93,7 +93,7 @@ def draw_case(rng: numpy.random.Generator, small: bool = True, force: Optional[d
             ds.static_keys.append("%d%d" % k)
             ds.static_table = numpy.concatenate([ds.static_table, full[k][:, None]], axis=1)
             n_extra += 1
-        if n_extra and rng.random() < 0.5:
+        if n_extra and (rng.random() < 0.5 or force.get("redundant") == "noisy"):
             # redundant components taken "from separate static runs": they disagree with the relations by 0.02-0.12 GPa,
             # well inside the default residual tolerance; the filling (a least-squares compromise) must still be applied
             noisy = True
